@@ -213,7 +213,10 @@ Defaults(f) == IF f = "dimerization_irrev" THEN [t0 |-> <<0, 1>>]
 AtDefaults == \A k \in DOMAIN Defaults(fn) : par[k] = Defaults(fn)[k]
 CallForms == {"positional", "keyword", "native-ints"}
              \cup (IF DOMAIN Defaults(fn) # {} /\ AtDefaults THEN {"implicit-defaults"} ELSE {})
-             \cup (IF backend \in {"default", "numpy:str", "numpy:mod", "plain"} THEN {"array-t"} ELSE {})
+             \cup (IF backend \in {"default", "numpy:str", "numpy:mod", "plain"}
+                   \* arrays for t, or for every positional argument (floats / native dtype), called TWICE on
+                   \* the same objects: both calls give the scalar values element-wise, no array is modified
+                   THEN {"array-t", "array-args", "array-args-native"} ELSE {})
              \cup (IF backend \in {"sympy:mod", "plain"} THEN {"symbolic-args"} ELSE {})
 CaseRec ==
     [ in  |-> [fn |-> fn, backend |-> backend, sig |-> Sig(fn), args |-> par,
